@@ -67,9 +67,26 @@ def run_sched(run, thorough):
          "bounds": {"threads": [2, 3], "ops": res[0]["ops"], "preemption_bound": "none needed: independent programs have a single Mazurkiewicz trace"}}
     run.phase("schedules/access-monitor", d, exhaustive=True,
               rule="ALL ordered pairs of the %d battery ops (one per API family) as 2 logical threads and %d triples as 3 threads on ONE shared context with shared read-only inputs; every instrumented access outside the stack and thread-private buffers is a visible operation; a program whose threads share no written byte is independent, so the executed schedule covers every interleaving; outputs compared with the sequential reference" % (res[0]["ops"], res[1]["programs"]))
+    explored = 0
     for x in dep[:10]:
-        run.violation("[schedules/access-monitor] threads running battery ops %s on one context are DEPENDENT: %s on %s (%d cells) - a data race / hidden shared mutable state" % (x["ops"], x["kind"], x["first"], x["bytes_cells"]),
-                      {"ops": x["ops"], "kind": x["kind"], "address": x["first"], "replay": "%s %d 0 %s" % (acc, len(x["ops"]), " ".join(map(str, x["ops"][:2])))}, None, None)
+        extra = ""
+        if len(x["ops"]) == 2 and explored < 3:
+            # the pair is dependent: enumerate EVERY schedule with <= 2 preemptions at the dependent accesses
+            explored += 1
+            try:
+                r2 = subprocess.run([acc, "2", "0", str(x["ops"][0]), str(x["ops"][1]), "explore"], capture_output=True, text=True, timeout=1500)
+                e = json.loads(r2.stdout.strip().splitlines()[-1])
+                d["hist"]["explored_schedules"] = d["hist"].get("explored_schedules", 0) + e.get("schedules", 0)
+                extra = "; preemption-bounded exploration: %d schedules with <= 2 preemptions over %d scheduling points, %d give a wrong output (first: start thread %d, preempt at points %s)" % (
+                    e.get("schedules", 0), e.get("scheduling_points", 0), e.get("wrong_output_schedules", 0), e.get("first_bad", {}).get("first_thread", 0), e.get("first_bad", {}).get("at"))
+                x["exploration"] = e
+            except Exception as ex:      # the race itself is already the violation
+                extra = "; exploration failed: %s" % ex
+        x["extra"] = extra
+    run.cov["phases"]["schedules/access-monitor"]["outcomes"] = d["hist"]
+    for x in dep[:10]:
+        run.violation("[schedules/access-monitor] threads running battery ops %s on one context are DEPENDENT: %s on %s (%d cells) - a data race / hidden shared mutable state%s" % (x["ops"], x["kind"], x["first"], x["bytes_cells"], x.get("extra", "")),
+                      {"ops": x["ops"], "kind": x["kind"], "address": x["first"], "exploration": x.get("exploration"), "replay": "%s 2 0 %s explore" % (acc, " ".join(map(str, x["ops"][:2])))}, None, None)
     if wrong:
         run.violation("[schedules/access-monitor] %d thread outputs differ from the sequential reference" % wrong, {"wrong_outputs": wrong}, None, None)
     if sum(x["log_overflow"] for x in res):
